@@ -13,8 +13,8 @@ import (
 // a test of its own state, never under a test of the position.
 
 func init() {
-	register(&Rule{ID: "R-unify-seed", Floor: 1, Run: ruleR3UnifySeed,
-		Doc: "the analyzer constructs that unify the types of a list of alternatives in a loop (match arms, list-literal elements — siblings of the two-branch constructs if/else and try/catch) keep a *unification accumulator*: a local of the analyzer's Type interface that lives across the iterations, is an operand of a TypeCheck call inside the loop and is assigned inside the loop from a term of the current alternative (the seed). Sibling agreement, as the code stands today in every member: the seed is guarded by a test of the accumulator's own STATE (it still holds its placeholder kind unknown/never/any, or a loop-carried flag says no type was fixed yet), so that candidates that fix no type (never: the alternative diverges; unknown: it had an error) are skipped and every later alternative is checked against the first real type. A seed guarded only by the POSITION of the alternative (`idx == 0`, a counter, a length) or not guarded at all freezes whatever the first alternative happened to have: if it diverges the result stays `never`, TypeCheck against never always succeeds, the remaining alternatives are not unified and follow-up checks against the result (missing default branch) cannot fire — ill-typed programs are accepted (C03), and the engines' unchecked value assertions then fail (C02). The TypeCheck may sit in a helper the accumulator is handed to; when check and seed of one iteration are moved together into a helper that receives the accumulator by pointer, that helper's body is the iteration and the pointer parameter the accumulator."})
+	register(&Rule{ID: "R-unify-seed", Floor: 6, Run: ruleR3UnifySeed,
+		Doc: "the analyzer constructs that unify the types of a list of alternatives in a loop (match arms, list-literal elements — siblings of the two-branch constructs if/else and try/catch) keep a *unification accumulator*: a local of the analyzer's Type interface that lives across the iterations, is an operand of a TypeCheck call inside the loop and is assigned inside the loop from a term of the current alternative (the seed). Sibling agreement, as the code stands today in every member: the seed is guarded by a test of the accumulator's own STATE (it still holds its placeholder kind unknown/never/any, or a loop-carried flag says no type was fixed yet), so that candidates that fix no type (never: the alternative diverges; unknown: it had an error) are skipped and every later alternative is checked against the first real type. A seed guarded only by the POSITION of the alternative (`idx == 0`, a counter, a length) or not guarded at all freezes whatever the first alternative happened to have: if it diverges the result stays `never`, TypeCheck against never always succeeds, the remaining alternatives are not unified and follow-up checks against the result (missing default branch) cannot fire — ill-typed programs are accepted (C03), and the engines' unchecked value assertions then fail (C02). The TypeCheck may sit in a helper the accumulator is handed to; when check and seed of one iteration are moved together into a helper that receives the accumulator by pointer, that helper's body is the iteration and the pointer parameter the accumulator. Coverage of the states: TypeCheck accepts every candidate at once when the expected type is any, unknown or never (extracted from its head switch). A seed must be reachable (guards evaluated with `acc.Kind()` fixed, other conditions free; if / else, early continue, switch on the kind, a predicate helper and a named condition are followed) (a) while the accumulator still holds the kind it was initialised with — otherwise no alternative ever fixes the type — and (b) while it holds never: never is the one of these kinds no value has (unknown marks a reported error, any is the top type), so an accumulator left at never lets all later alternatives pass unchecked and types the whole construct as not completing although other alternatives complete (the compiler then emits a stray Drop behind a statement-level match: C11; a heterogeneous list literal behind a diverging first element is accepted: C03). The two-branch siblings (if/else, try/catch: a TypeCheck between the result types of two analysed blocks of the node) must compare the kind of EACH branch result with never somewhere in the function."})
 }
 
 func ruleR3UnifySeed(c *Ctx) []Obligation {
@@ -105,7 +105,7 @@ func ruleR3UnifySeed(c *Ctx) []Obligation {
 		})
 		// one unification site: a scope (loop body / helper body), its accumulator, the variables of the current
 		// alternative and the variables that encode its position
-		site := func(scope *ast.BlockStmt, key string, posNode ast.Node, acc types.Object, elemVars, posVars map[types.Object]bool) {
+		site := func(scope *ast.BlockStmt, key string, posNode ast.Node, acc types.Object, elemVars, posVars map[types.Object]bool, declFds []*ast.FuncDecl, declAccs []types.Object) {
 			inScope := func(o types.Object) bool { return scope.Pos() <= o.Pos() && o.Pos() < scope.End() }
 			isAccTarget := func(l ast.Expr) bool {
 				l = ast.Unparen(l)
@@ -281,6 +281,13 @@ func ruleR3UnifySeed(c *Ctx) []Obligation {
 				ob.Detail = "seeded " + strings.Join(oks, "; ")
 			}
 			out = append(out, ob)
+			for i, dfd := range declFds {
+				k := key
+				if len(declFds) > 1 {
+					k = fmt.Sprintf("%s (for %s)", key, FuncName(dfd))
+				}
+				out = append(out, r4usStateObligations(c, e, f, parent, scope, seeds, acc, k, dfd, info, declAccs[i])...)
+			}
 		}
 
 		// form 1: loops with a loop-carried accumulator
@@ -344,7 +351,7 @@ func ruleR3UnifySeed(c *Ctx) []Obligation {
 				if !seededHere && r3usPassedByPointer(info, loop.Body, acc) {
 					continue
 				}
-				site(loop.Body, key, loop, acc, elemVars, posVars)
+				site(loop.Body, key, loop, acc, elemVars, posVars, []*ast.FuncDecl{fd}, []types.Object{acc})
 			}
 			return true
 		})
@@ -376,9 +383,35 @@ func ruleR3UnifySeed(c *Ctx) []Obligation {
 			}
 			r2sibDerived(f, fd.Body, elemVars)
 			key := fmt.Sprintf("homescript/analyzer.%s|accumulator *%s", FuncName(fd), acc.Name())
-			site(fd.Body, key, fd, acc, elemVars, posVars)
+			// the accumulator is declared by the callers that hand it in
+			var dfds []*ast.FuncDecl
+			var daccs []types.Object
+			for _, cfd := range fds {
+				ast.Inspect(cfd.Body, func(n ast.Node) bool {
+					call, ok := n.(*ast.CallExpr)
+					if !ok || CalleeOf(info, call) != fn || f.params[acc] >= len(call.Args) {
+						return true
+					}
+					if u, ok := ast.Unparen(call.Args[f.params[acc]]).(*ast.UnaryExpr); ok && u.Op == token.AND {
+						if id, ok := ast.Unparen(u.X).(*ast.Ident); ok {
+							if o := info.Uses[id]; o != nil {
+								for _, seen := range daccs {
+									if seen == o {
+										return true
+									}
+								}
+								dfds = append(dfds, cfd)
+								daccs = append(daccs, o)
+							}
+						}
+					}
+					return true
+				})
+			}
+			site(fd.Body, key, fd, acc, elemVars, posVars, dfds, daccs)
 		}
 	}
+	out = append(out, r4usPeerObligations(c, e)...)
 	sort.SliceStable(out, func(i, j int) bool { return out[i].Key < out[j].Key })
 	return out
 }
